@@ -150,8 +150,27 @@ func (p *Prog) FnOr(rel, recv, name string) *ssa.Function {
 		}
 		return one(out)
 	case "oracle.hasConflict":
-		return one(p.calleesIn(p.FnOr("", "oracle", "newCommitTs"), func(g *ssa.Function, _ ssa.CallInstruction) bool {
+		if f := one(p.calleesIn(p.FnOr("", "oracle", "newCommitTs"), func(g *ssa.Function, _ ssa.CallInstruction) bool {
 			return p.recvIs(g, "oracle") && resultIs(g, types.Bool)
+		})); f != nil {
+			return f
+		}
+		// a plain function of the package that is handed the committed list and the transaction
+		return one(p.calleesIn(p.FnOr("", "oracle", "newCommitTs"), func(g *ssa.Function, _ ssa.CallInstruction) bool {
+			if g.Pkg != p.SSAPkg[p.ModPath] || !resultIs(g, types.Bool) || len(g.Blocks) == 0 {
+				return false
+			}
+			takesTxn := false
+			for _, pr := range g.Params {
+				t := pr.Type()
+				if pt, ok := t.Underlying().(*types.Pointer); ok {
+					t = pt.Elem()
+				}
+				if n := p.isModuleNamed(t); n != nil && n.Obj().Name() == "Txn" {
+					takesTxn = true
+				}
+			}
+			return takesTxn
 		}))
 	case "oracle.cleanUpCommittedTxns":
 		return one(p.calleesIn(p.FnOr("", "oracle", "newCommitTs"), func(g *ssa.Function, _ ssa.CallInstruction) bool {
